@@ -1,0 +1,9 @@
+//go:build verif
+
+package iri
+
+// VerifIndices exposes the index bookkeeping of NewBaseIRI for the verification harness:
+// root, directory, resource, query, fragment (-1 when absent).
+func (rb *BaseIRI) VerifIndices() [5]int {
+	return [5]int{rb.rootIndex, rb.directoryIndex, rb.resourceIndex, rb.queryIndex, rb.fragmentIndex}
+}
